@@ -39,13 +39,14 @@ func (v vmsg) encode() string {
 	return m.String()
 }
 
-var c19Ops = []string{"AppendData", "AppendComment", "SetID", "Clone", "UnmarshalText"}
+var c19Ops = []string{"AppendData", "AppendComment", "SetID", "Clone", "UnmarshalText", "ID.UnmarshalText(reused buffer)"}
 
 // runCloneSeq applies a sequence of operations (op*3+target) to a family of at most 3 messages and to the
 // value model; after every step every message must encode like its model.
 func runCloneSeq(seq []uint8) string {
 	real := []*sse.Message{{}}
 	model := []vmsg{{}}
+	scratch := make([]byte, 8) // the caller's line buffer, reused for every ID it decodes
 	for step, code := range seq {
 		op, tgt := int(code)/3, int(code)%3
 		if tgt >= len(real) {
@@ -75,9 +76,26 @@ func runCloneSeq(seq []uint8) string {
 				return "UnmarshalText failed: " + err.Error()
 			}
 			model[tgt] = vmsg{lines: []string{"d:" + x, "c:" + x, "d:u"}}
+		case 5:
+			// the ID arrives as text in a buffer the caller reuses afterwards (a scanner's line buffer)
+			n := copy(scratch, x)
+			if err := real[tgt].ID.UnmarshalText(scratch[:n]); err != nil {
+				return "ID.UnmarshalText failed: " + err.Error()
+			}
+			model[tgt].id, model[tgt].hasID = x, true
+		}
+		// all messages are encoded first (through MarshalText: the results are kept side by side), then compared:
+		// what one message encoded to must not change when another one is encoded
+		outs := make([][]byte, len(real))
+		for i := range real {
+			outs[i], _ = real[i].MarshalText()
 		}
 		for i := range real {
-			if got, want := real[i].String(), model[i].encode(); got != want {
+			want := model[i].encode()
+			if got := string(outs[i]); got != want {
+				return fmt.Sprintf("after %s message #%d encodes to %q (MarshalText, read after the other messages were encoded too), want %q (what a message built on its own by the same calls encodes to)", describeSeq(seq[:step+1]), i, got, want)
+			}
+			if got := real[i].String(); got != want {
 				return fmt.Sprintf("after %s message #%d encodes to %q, want %q (what a message built on its own by the same calls encodes to)", describeSeq(seq[:step+1]), i, got, want)
 			}
 		}
@@ -289,7 +307,7 @@ var C19 = &sqrun.Check{ID: "C19", QuickBudget: 60, ThoroughBudget: 600,
 		cov := ev.Coverage{"evaluations": k.cases.Load(), "distinct_nontrivial": k.nontriv.Load(), "exhaustive": k.exhaustive(),
 			"clone_sequences": seqs, "depth": depth,
 			"samples": []any{describeSeq([]uint8{0, 0, 0, 9, 0, 1}), "replayer valid=false autoIDs=true, the same message (3 data lines) put 4 times"},
-			"rule":    fmt.Sprintf("every sequence of <= %d operations from {AppendData, AppendComment, set ID, Clone, UnmarshalText of a new event} x target message (family of at most 3 messages, clones of clones included), executed on real Messages and on a value model (copied slices); after every step every message must encode exactly like its model. Plus: one message put 1..6 times (0..5 data lines) through FiniteReplayer(2) and ValidReplayer in both ID modes: the caller's message stays byte-identical and unset, returned copies are independent, IDs consecutive, earlier publications keep their IDs (wrap-around of the finite buffer included). Plus: one message published 1..3 times through a real Joe with no replayer, FiniteReplayer, ValidReplayer (both ID modes, with and without an ID of its own, so accepted and rejected), a replayer whose Put fails and one whose Put panics: the caller's message stays byte-identical. What subscribers receive is covered by C04's oracle (IDs live = IDs returned by Put).", depth)}
+			"rule":    fmt.Sprintf("every sequence of <= %d operations from {AppendData, AppendComment, set ID, Clone, UnmarshalText of a new event, ID.UnmarshalText from a buffer the caller reuses} x target message (family of at most 3 messages, clones of clones included), executed on real Messages and on a value model (copied slices); after every step every message must encode exactly like its model. Plus: one message put 1..6 times (0..5 data lines) through FiniteReplayer(2) and ValidReplayer in both ID modes: the caller's message stays byte-identical and unset, returned copies are independent, IDs consecutive, earlier publications keep their IDs (wrap-around of the finite buffer included). Plus: one message published 1..3 times through a real Joe with no replayer, FiniteReplayer, ValidReplayer (both ID modes, with and without an ID of its own, so accepted and rejected), a replayer whose Put fails and one whose Put panics: the caller's message stays byte-identical. What subscribers receive is covered by C04's oracle (IDs live = IDs returned by Put).", depth)}
 		return &sqrun.Outcome{Level: "model_checking", Coverage: ev.Coverage(mergeMC(cov, seqs)), Assumptions: []string{"Message has no hidden state beyond what its encoding shows"}}
 	},
 }
